@@ -304,8 +304,8 @@ def generate(sc, tier, seed):
         gmax = GROUP_MAX
         if any(b[2] for b, _d in lst):
             gmax = 2  # blocks with a memory operand: four merged blocks exhaust 12 GB
-        if "_w64" in gkey[1]:
-            gmax = 1
+        if "_w64" in gkey[1] or gkey[0] in ("pop", "push", "call", "ret"):
+            gmax = 1  # stack forms: two merged blocks exhaust 12 GB
         for i in range(0, len(lst), gmax):
             part = lst[i:i + gmax]
             h = hid if len(lst) <= gmax else "%s_%d" % (hid, i // gmax)
